@@ -124,10 +124,22 @@ inline std::string train_yaml(const World &w) {
 // ---------------------------------------------------------------- generation
 struct GenOpts { int max_boards = 4, max_trains = 3; bool allow_absent = true, allow_unknown = true, want_initial = true, want_features = true; int max_depth = 3; };
 
+// aspect ids: either independent names or (one time in three) a chain in which every id is a prefix of the next one, listed in
+// random order ("go", "go_slow", "go_slow_x"): id lookups that compare only a prefix pick the wrong aspect there
+inline std::vector<std::string> gen_aspect_ids(Rng &r, const std::string &pfx, int n) {
+	std::vector<std::string> ids;
+	if (n > 1 && r.chance(330)) {
+		std::string cur = pfx + "a";
+		for (int i = 0; i < n; i++) { ids.push_back(cur); cur += (i % 2 ? "_x" : "0"); }
+		for (int i = n - 1; i > 0; i--) std::swap(ids[(size_t) i], ids[r.below((uint64_t) i + 1)]);
+	} else for (int i = 0; i < n; i++) ids.push_back(pfx + "a" + std::to_string(i));
+	return ids;
+}
 inline std::vector<Aspect> gen_aspects(Rng &r, const std::string &pfx) {
 	std::vector<Aspect> v; int n = (int) r.range(1, 4);
 	std::set<int> used;
-	for (int i = 0; i < n; i++) { int val; do { val = (int) r.range(0, r.chance(100) ? 127 : 5); } while (used.count(val)); used.insert(val); v.push_back({pfx + "a" + std::to_string(i), (uint8_t) val}); }
+	std::vector<std::string> ids = gen_aspect_ids(r, pfx, n);
+	for (int i = 0; i < n; i++) { int val; do { val = (int) r.range(0, r.chance(100) ? 127 : 5); } while (used.count(val)); used.insert(val); v.push_back({ids[(size_t) i], (uint8_t) val}); }
 	return v;
 }
 
@@ -196,9 +208,10 @@ inline World gen_world(Rng &r, const GenOpts &o) {
 				std::vector<int> ports; while ((int) ports.size() < np) { int pt = (int) r.range(0, 31); if (std::find(ports.begin(), ports.end(), pt) == ports.end()) ports.push_back(pt); }
 				int na = (int) r.range(1, std::min(3, 1 << np));
 				std::set<int> vecs;
+				std::vector<std::string> dids = gen_aspect_ids(r, "d", na);
 				for (int q = 0; q < na; q++) {
 					int v; do { v = (int) r.below(1u << np); } while (vecs.count(v)); vecs.insert(v);
-					DccAspect as; as.id = "d" + std::to_string(q);
+					DccAspect as; as.id = dids[(size_t) q];
 					for (int z = 0; z < np; z++) as.ports.push_back({(uint8_t) ports[(size_t) z], (uint8_t) ((v >> z) & 1)});
 					a.aspects.push_back(as);
 				}
